@@ -10,6 +10,7 @@ mod de_bruijn;
 mod evaluator;
 mod parser;
 mod reference;
+mod grammar;
 
 use num_bigint::BigInt;
 use reference::{K, R, Raw};
@@ -259,6 +260,100 @@ fn case_parser(target: &str, rng: &mut Rng) -> Option<(String, String, String, u
     None
 }
 
+// ---- packrat unit: real recogniser vs the derivations of grammar.y -------------------------------------
+fn term_name(variant: &str) -> &'static str {
+    match variant {
+        "Asterisk" => "ASTERISK", "Boolean" => "BOOLEAN", "Colon" => "COLON", "DoubleEquals" => "DOUBLE_EQUALS", "Else" => "ELSE",
+        "Equals" => "EQUALS", "False" => "FALSE", "GreaterThan" => "GREATER_THAN", "GreaterThanOrEqualTo" => "GREATER_THAN_OR_EQUAL",
+        "Identifier" => "IDENTIFIER", "If" => "IF", "Integer" => "INTEGER", "IntegerLiteral" => "INTEGER_LITERAL", "LeftCurly" => "LEFT_CURLY",
+        "LeftParen" => "LEFT_PAREN", "LessThan" => "LESS_THAN", "LessThanOrEqualTo" => "LESS_THAN_OR_EQUAL", "Minus" => "MINUS", "Plus" => "PLUS",
+        "RightCurly" => "RIGHT_CURLY", "RightParen" => "RIGHT_PAREN", "Slash" => "SLASH", "Terminator" => "TERMINATOR", "Then" => "THEN",
+        "ThickArrow" => "THICK_ARROW", "ThinArrow" => "THIN_ARROW", "True" => "TRUE", "Type" => "TYPE", _ => "?",
+    }
+}
+
+const CONTEXT: [&str; 3] = ["x", "y", "f"];
+const ALL_TERMINALS: [&str; 28] = ["ASTERISK", "BOOLEAN", "COLON", "DOUBLE_EQUALS", "ELSE", "EQUALS", "FALSE", "GREATER_THAN", "GREATER_THAN_OR_EQUAL",
+    "IDENTIFIER", "IF", "INTEGER", "INTEGER_LITERAL", "LEFT_CURLY", "LEFT_PAREN", "LESS_THAN", "LESS_THAN_OR_EQUAL", "MINUS", "PLUS", "RIGHT_CURLY",
+    "RIGHT_PAREN", "SLASH", "TERMINATOR", "THEN", "THICK_ARROW", "THIN_ARROW", "TRUE", "TYPE"];
+
+// one token of the real type per (terminal, text)
+fn make_token(kind: &str, text: &'static str) -> token::Token<'static> {
+    use token::{TerminatorType, Variant as V};
+    let variant = match kind {
+        "ASTERISK" => V::Asterisk, "BOOLEAN" => V::Boolean, "COLON" => V::Colon, "DOUBLE_EQUALS" => V::DoubleEquals, "ELSE" => V::Else,
+        "EQUALS" => V::Equals, "FALSE" => V::False, "GREATER_THAN" => V::GreaterThan, "GREATER_THAN_OR_EQUAL" => V::GreaterThanOrEqualTo,
+        "IDENTIFIER" => V::Identifier(text), "IF" => V::If, "INTEGER" => V::Integer, "INTEGER_LITERAL" => V::IntegerLiteral(text.parse::<BigInt>().unwrap()),
+        "LEFT_CURLY" => V::LeftCurly, "LEFT_PAREN" => V::LeftParen, "LESS_THAN" => V::LessThan, "LESS_THAN_OR_EQUAL" => V::LessThanOrEqualTo,
+        "MINUS" => V::Minus, "PLUS" => V::Plus, "RIGHT_CURLY" => V::RightCurly, "RIGHT_PAREN" => V::RightParen, "SLASH" => V::Slash,
+        "TERMINATOR" => V::Terminator(if text == ";" { TerminatorType::Semicolon } else { TerminatorType::LineBreak }), "THEN" => V::Then,
+        "THICK_ARROW" => V::ThickArrow, "THIN_ARROW" => V::ThinArrow, "TRUE" => V::True, "TYPE" => V::Type, other => panic!("terminal {other}"),
+    };
+    token::Token { source_range: error::SourceRange { start: 0, end: 0 }, variant }
+}
+
+fn show_full(t: &Raw) -> String {
+    let g = if t.group { "'" } else { "" };
+    if t.kids.is_empty() { format!("{}{}", t.kind, g) } else { format!("({}{} {})", t.kind, g, t.kids.iter().map(show_full).collect::<Vec<_>>().join(" ")) }
+}
+
+fn case_packrat(g: &grammar::Grammar, rng: &mut Rng, completeness: bool) -> Option<(String, String, String, usize)> {
+    // a random sentence of grammar.y ...
+    let mut syms: Vec<(String, &'static str)> = vec![];
+    let budget = 3 + rng.below(9) as u32;
+    g.generate("term", budget, &mut |n| rng.below(n), &mut syms);
+    if syms.len() > 40 { return None; }
+    let mut fresh = 0;
+    let mut toks: Vec<(String, String)> = syms.iter().map(|(k, role)| {
+        let text = match (k.as_str(), *role) {
+            ("IDENTIFIER", "use") => CONTEXT[rng.below(3) as usize].to_owned(),
+            ("IDENTIFIER", _) => { fresh += 1; format!("a{fresh}") }
+            ("INTEGER_LITERAL", _) => format!("{}", rng.below(10)),
+            ("TERMINATOR", _) => if rng.below(2) == 0 { ";".to_owned() } else { "\\n".to_owned() },
+            _ => String::new(),
+        };
+        (k.clone(), text)
+    }).collect();
+    // ... possibly damaged by one or two token edits (near-miss non-sentences)
+    if rng.below(2) == 0 {
+        for _ in 0..1 + rng.below(2) {
+            let fresh_tok = |rng: &mut Rng| { let k = ALL_TERMINALS[rng.below(28) as usize]; (k.to_owned(), match k { "IDENTIFIER" => "x".to_owned(), "INTEGER_LITERAL" => "7".to_owned(), "TERMINATOR" => ";".to_owned(), _ => String::new() }) };
+            let n = toks.len();
+            match rng.below(4) {
+                0 if n > 1 => { toks.remove(rng.below(n as u64) as usize); }
+                1 => { let t = fresh_tok(rng); toks.insert(rng.below(n as u64 + 1) as usize, t); }
+                2 if n > 0 => { let t = fresh_tok(rng); toks[rng.below(n as u64) as usize] = t; }
+                _ if n > 1 => { let i = rng.below(n as u64 - 1) as usize; toks.swap(i, i + 1); }
+                _ => {}
+            }
+        }
+    }
+    let kinds: Vec<&str> = toks.iter().map(|(k, _)| k.as_str()).collect();
+    let texts: Vec<String> = toks.iter().map(|(_, t)| t.clone()).collect();
+    let leaked: Vec<&'static str> = texts.iter().map(|t| &*Box::leak(t.clone().into_boxed_str())).collect();
+    let real_tokens: Vec<token::Token<'static>> = kinds.iter().zip(&leaked).map(|(k, t)| make_token(k, t)).collect();
+    let mut memo = std::collections::HashMap::new();
+    let derivs = g.derive("term", &kinds, 0, kinds.len(), &mut memo);
+    let expected: Vec<String> = derivs.iter().map(|d| show_full(&grammar::tree_of(d, &texts))).collect();
+    let (raw_ok, raw) = parser::packrat_hooks::raw_parse(&real_tokens);
+    let got = show_full(&raw);
+    let shown = toks.iter().map(|(k, t)| if t.is_empty() { k.to_lowercase() } else { format!("{}:{}", k.to_lowercase(), t) }).collect::<Vec<_>>().join(" ");
+    let size = toks.len();
+    if derivs.is_empty() {
+        if raw_ok { return Some((format!("tokens [{shown}]"), format!("ACCEPTED by parse_term + error check, raw tree {got}"), "not a sentence of grammar.y (no derivation of `term`)".into(), size)); }
+        let mut binders = std::collections::HashSet::new();
+        let distinct = toks.iter().all(|(k, t)| k != "IDENTIFIER" || CONTEXT.contains(&t.as_str()) || binders.insert(t.clone()));
+        if distinct && parser::packrat_hooks::full_parse_ok(&real_tokens, &CONTEXT) { return Some((format!("tokens [{shown}]"), "ACCEPTED by parse()".into(), "not a sentence of grammar.y (no derivation of `term`)".into(), size)); }
+        return None;
+    }
+    if raw_ok {
+        if !expected.contains(&got) { return Some((format!("tokens [{shown}]"), format!("raw tree {got}"), format!("derivation of grammar.y: {}", expected.join("  |  ")), size)); }
+    } else if completeness {
+        return Some((format!("tokens [{shown}]"), "REJECTED by the recogniser stage".into(), format!("a sentence of grammar.y: {}", expected[0]), size));
+    }
+    None
+}
+
 // Sanity test (bounded, NOT a proof) of the ASSUMED num-bigint contract used by the proofs: exact + - *, unary
 // minus, comparisons, and checked_div = None iff divisor 0, else the quotient truncated toward zero.
 fn bigint_contract() -> (u64, Option<String>) {
@@ -305,6 +400,7 @@ fn main() {
     let seed: u64 = args.get(2).and_then(|s| s.parse().ok()).unwrap_or(1);
     let count: u64 = args.get(3).and_then(|s| s.parse().ok()).unwrap_or(200_000);
     let mut rng = Rng(seed.wrapping_mul(0x9E37_79B9_7F4A_7C15) | 1);
+    let grammar = if target.starts_with("packrat") { Some(grammar::Grammar::load(args.get(4).map_or("/repo/grammar.y", |s| s.as_str()))) } else { None };
     panic::set_hook(Box::new(|_| {}));
     let mut best: Option<(String, String, String, usize)> = None;
     let mut tried = 0u64;
@@ -315,7 +411,7 @@ fn main() {
         let t = target.clone();
         let r = panic::catch_unwind(panic::AssertUnwindSafe(|| {
             let mut local = Rng(snapshot.0);
-            let out = if t.starts_with("reassociate") { case_parser(&t, &mut local) } else { case(&t, &mut local) };
+            let out = if t.starts_with("packrat") { case_packrat(grammar.as_ref().unwrap(), &mut local, t == "packrat_complete") } else if t.starts_with("reassociate") { case_parser(&t, &mut local) } else { case(&t, &mut local) };
             (out, local.0)
         }));
         match r {
